@@ -236,7 +236,7 @@ class C17(Check):
             'without an ignore declaration; with and without a grammar name. Expected value from the closed form of the '
             'transparent wrappers (reference interpreter as second voice up to depth 40). Deep inputs: 8 recursive grammars '
             '(plain rule, class, templates with value and parser arguments, ignore, named, mixfix row of an operator table, '
-            'right-recursive list) at depth 10^4 (quick) / 10^5 (thorough), results checked iteratively. Non-trivial iff the '
+            'right-recursive list) at depth 3*10^4 (quick) / 10^5 (thorough), results checked iteratively. Non-trivial iff the '
             'compiled source (include_source) shows that code was split into a helper function that is called, or the input '
             'depth exceeds Python\'s recursion limit; distinct by case tuple.')
     assumptions = ['two-nodes-per-layer wrappers are swept to depth 100 only: known finding F29 (Grammar() itself is recursive)']
@@ -260,7 +260,7 @@ class C17(Check):
                             continue
                         tasks.append(('sweep', inner, wrapper, ign, named, ds, seed))
         for kind in DEEP:
-            tasks.append(('deep', kind, 10000 if tier == 'quick' else 100000))
+            tasks.append(('deep', kind, 30000 if tier == 'quick' else 100000))
         random.Random(seed).shuffle(tasks)
         return tasks
 
